@@ -442,14 +442,52 @@ def maybe_moved(rnd, scn, p=0.1):
     return scn
 
 
-def add_lifecycles(rnd, scn, p_derived=0.08, p_entry=0.12, p_used=0.06, p_prior=0.0, p_sibling=0.05, p_metres=0.0, p_reoriented=0.0):
+GUEST_POINTS = ("update.before", "update.after", "attempt", "attempt", "screen", "refresh.before", "save.before", "save.after")
+
+
+def gen_guests(rnd, scn, n=None):
+    """Schedule decisions 'another simulation runs here': one or two complete solves on the same Device
+    object, each executed at a seam of the run under test (between two steps, inside a step right before
+    the psi update / a screening iteration / an operator refresh, around a frame write)."""
+    o = scn["options"]
+    steps = max(1, int(scn.get("meta", {}).get("steps", 5)))
+    fu = o.get("field_units", "mT")
+    out = []
+    for _ in range(n or rnd.choice([1, 1, 2])):
+        point = rnd.choice(GUEST_POINTS)
+        if point == "screen" and not o.get("include_screening"):
+            point = "attempt"
+        at = {"point": point, "stage": "T" if (o.get("skip_time") and rnd.random() < 0.2) else "S", "step": rnd.randint(0, max(0, min(steps, 12) - 1))}
+        if point in ("save.before", "save.after"):
+            at["step"] = None  # the first frame written from the chosen occurrence on
+            at["nth"] = rnd.choice([0, 0, 1, 2])
+        elif point in ("screen", "refresh.before", "attempt"):
+            at["nth"] = rnd.choice([0, 0, 1, 3])
+            if point == "attempt" and not o.get("include_screening"):
+                at["nth"] = 0
+        mode = rnd.choice(["same", "same", "other-field", "sibling"])
+        what = {"mode": mode, "steps": rnd.choice([1, 2, 3]), "save_every": rnd.choice([1, 2, 100])}
+        if mode == "other-field":
+            what["field"] = {"kind": "const", "B": r3(rnd.choice([0.3, -0.7, 1.5]) * FIELD_FACTOR[fu])}
+        if mode == "sibling" and not scn.get("sibling"):
+            what["mode"] = "same"
+        if scn["device"].get("terminals") and rnd.random() < 0.3:
+            tp = o.get("terminal_psi", 0.0)
+            what["terminal_psi"] = 0.0 if tp is None else None
+        if rnd.random() < 0.25:
+            what["screening"] = not bool(o.get("include_screening"))
+        out.append({"at": at, "what": what})
+    return out
+
+
+def add_lifecycles(rnd, scn, p_derived=0.08, p_entry=0.12, p_used=0.06, p_prior=0.0, p_sibling=0.05, p_metres=0.0, p_reoriented=0.0, p_guest=0.06):
     """Object life cycles every Engine-A workload shares (drawn from their own sub-stream, so the
     scenario a property's generator produced is left as it is): the Device handed to the solver is
     derived from the meshed one (copy / deep copy / pickled copy / identity transform + re-mesh), and
     the run is started through the convenience entry point tdgl.solve() instead of TDGLSolver()."""
     if isinstance(scn, dict) and isinstance(scn.get("base"), dict):
         # groups (C11): the life cycle belongs to the physics scenario every member executes
-        add_lifecycles(rnd, scn["base"], p_derived, p_entry, p_used, p_prior, p_sibling, p_metres, p_reoriented)
+        add_lifecycles(rnd, scn["base"], p_derived, p_entry, p_used, p_prior, p_sibling, p_metres, p_reoriented, p_guest)
         return scn
     if not isinstance(scn, dict) or scn.get("physics") != "real" or "device" not in scn:
         return scn
@@ -496,6 +534,11 @@ def add_lifecycles(rnd, scn, p_derived=0.08, p_entry=0.12, p_used=0.06, p_prior=
     if rnd.random() < p_sibling and not scn.get("sibling"):
         # a second solver alive on the same Device with another applied field (see maybe_sibling)
         maybe_sibling(rnd, scn, 1.0)
+    # drawn last, from a sub-stream of its own, so that every scenario generated before this life cycle
+    # existed stays exactly as it was
+    g = __import__("random").Random(rnd.getrandbits(64))
+    if g.random() < p_guest and not scn.get("seed_phase") and not scn.get("reload_phase") and not scn.get("guests"):
+        scn["guests"] = gen_guests(g, scn)
     return scn
 
 
